@@ -323,7 +323,7 @@ pub fn replay(case: &J) -> CaseResult {
         .as_object()
         .map(|o| o.iter().map(|(k, v)| (k.clone(), (v[0].as_u64().unwrap_or(0) as usize, v[1].as_u64().unwrap_or(0) as usize))).collect())
         .unwrap_or_default();
-    let w = Written { text: case["text"].as_str().unwrap_or("").to_string(), pos, plain_strings: 0, quoted_strings: 0, block_scalars: 0 };
+    let w = Written { text: case["text"].as_str().unwrap_or("").to_string(), pos, plain_strings: 0, quoted_strings: 0, block_scalars: 0, empty_nulls: 0 };
     let style = STYLES.iter().find(|s| s.text() == case["style"].as_str().unwrap_or("")).copied().unwrap_or(Style::JsonPretty);
     // the clause table is not available in replay: pointer and position checks only
     let mut ev = 0;
